@@ -9,6 +9,7 @@ mod mon;
 mod mon_admin;
 mod mon_risk;
 mod scen;
+mod shapes;
 mod storm;
 mod tap;
 mod world;
@@ -57,7 +58,7 @@ async fn run_storm(a: &Args, m: &mut mon::Mon) {
         let seed = subseed(a, world_no);
         let mut r = storm::rng(seed);
         use rand::Rng;
-        let cfg = storm::StormCfg { n_banks: r.gen_range(3..=6), n_users: r.gen_range(3..=6), program_fees: r.gen_bool(0.6), magnitude: storm::pick(&mut r, &[0u8, 1, 1, 1, 2]), with_staked: false };
+        let cfg = storm::StormCfg { n_banks: r.gen_range(3..=6), n_users: r.gen_range(3..=6), program_fees: r.gen_bool(0.6), magnitude: storm::pick(&mut r, &[0u8, 1, 1, 1, 2]), with_staked: false, n_isolated: 1, emode: r.gen_bool(0.3) };
         let (mut w, mut s) = storm::Storm::build(seed, cfg).await;
         let steps = if a.tier == "thorough" { 6000 } else { 1500 };
         for _ in 0..steps {
@@ -82,7 +83,8 @@ async fn run_scen(a: &Args, m: &mut mon::Mon) {
     while t0.elapsed() < a.budget {
         let seed = subseed(a, world_no);
         let mut r = storm::rng(seed);
-        let cfg = storm::StormCfg { n_banks: r.gen_range(3..=5), n_users: 2, program_fees: r.gen_bool(0.6), magnitude: 1, with_staked: false };
+        let c04 = a.prop == "C04";
+        let cfg = storm::StormCfg { n_banks: if c04 { r.gen_range(5..=8) } else { r.gen_range(3..=5) }, n_users: 2, program_fees: r.gen_bool(0.6), magnitude: 1, with_staked: false, n_isolated: if c04 { 2 } else { 1 }, emode: c04 || r.gen_bool(0.3) };
         let (mut w, mut s) = storm::Storm::build(seed, cfg).await;
         let g = s.g;
         let lq = s.liquidator;
@@ -106,6 +108,10 @@ async fn run_scen(a: &Args, m: &mut mon::Mon) {
                 break;
             }
             let db = storm::pick(&mut r, &dbs);
+            if a.prop == "C04" && r.gen_bool(0.7) {
+                scen::portfolio(&mut w, m, &mut r, g, lq).await;
+                continue;
+            }
             let frac = storm::pick(&mut r, &[1.0f64, 0.999, 0.95, 0.7, 0.3]);
             let lev = match scen::setup_leveraged(&mut w, m, &mut r, g, lq, ca, db, frac).await {
                 Some(l) => l,
@@ -166,7 +172,7 @@ async fn run_admin(a: &Args, m: &mut mon::Mon) {
     while t0.elapsed() < a.budget {
         let seed = subseed(a, world_no);
         let mut r = storm::rng(seed);
-        let cfg = storm::StormCfg { n_banks: r.gen_range(3..=5), n_users: 3, program_fees: r.gen_bool(0.7), magnitude: 1, with_staked: false };
+        let cfg = storm::StormCfg { n_banks: r.gen_range(3..=5), n_users: 3, program_fees: r.gen_bool(0.7), magnitude: 1, with_staked: false, n_isolated: 1, emode: false };
         let (mut w, mut s) = storm::Storm::build(seed, cfg).await;
         let g = s.g;
         let mut ad = admin::Admin { g, emint: None, steps: 0 };
@@ -240,6 +246,30 @@ async fn run_matrix(a: &Args, m: &mut mon::Mon) {
     }
 }
 
+/// Transaction-shape enumeration for the bracket properties.
+async fn run_shapes(a: &Args, m: &mut mon::Mon) {
+    use rand::Rng;
+    let t0 = Instant::now();
+    let mut world_no = 0u64;
+    let thorough = a.tier == "thorough";
+    while t0.elapsed() < a.budget {
+        let seed = subseed(a, world_no);
+        let mut r = storm::rng(seed);
+        let (mut w, t) = matrix::build_twin(seed, &mut r).await;
+        if a.prop == "C11" {
+            // first world of shard 0 enumerates exhaustively; the others sample longer shapes
+            let ex = if world_no == 0 && a.shard == 0 { if thorough { 4 } else { 3 } } else { 2 };
+            shapes::run_c11(&mut w, m, &mut r, &t, if thorough { 7 } else { 6 }, ex, if thorough { 6000 } else { 1500 }).await;
+        } else {
+            let ex = if world_no == 0 && a.shard <= 2 { if thorough { 4 } else { 3 } } else { 2 };
+            let with_record = (a.shard + world_no) % 2 == 0;
+            shapes::run_c10(&mut w, m, &mut r, &t, if thorough { 7 } else { 6 }, ex, if thorough { 6000 } else { 1500 }, with_record).await;
+        }
+        m.r.add("shapes.worlds", 1);
+        world_no += 1;
+    }
+}
+
 #[tokio::main(flavor = "current_thread")]
 async fn main() {
     if std::env::var("RUST_LOG").is_err() {
@@ -278,8 +308,22 @@ async fn main() {
     };
     let mut m = mon::Mon::new(&a.prop, &on);
     match a.prop.as_str() {
-        "C01" | "C02" | "C03" | "C06" | "C16" | "C17" | "ALL" | "C11" => run_storm(&a, &mut m).await,
-        "C04" | "C05" | "C07" | "C10" | "C09" => run_scen(&a, &mut m).await,
+        "C01" | "C02" | "C03" | "C06" | "C16" | "C17" | "ALL" => run_storm(&a, &mut m).await,
+        "C11" => {
+            if a.shard % 2 == 0 {
+                run_shapes(&a, &mut m).await
+            } else {
+                run_storm(&a, &mut m).await
+            }
+        }
+        "C10" => {
+            if a.shard % 2 == 0 {
+                run_shapes(&a, &mut m).await
+            } else {
+                run_scen(&a, &mut m).await
+            }
+        }
+        "C04" | "C05" | "C07" | "C09" => run_scen(&a, &mut m).await,
         "C12" | "C13" | "C19" => run_admin(&a, &mut m).await,
         "C08" | "C14" => {
             if a.shard % 2 == 0 {
